@@ -312,6 +312,15 @@ func registerReflectModel(e *Engine) {
 		return &RVal{Kind: rkFunc, Typ: rt, Val: a[1]}
 	}
 
+	// reflect.Select: delegated to the harness function vhSelectModel(cases) if it
+	// exists (it may run another activation first: that is a preemption point).
+	H["reflect.Select"] = func(st *State, a []Value) Value {
+		if f := st.E.harnessFunc("vhSelectModel"); f != nil {
+			return st.callFn(f, a, nil, nil)
+		}
+		st.unsupported("reflect.Select without a harness model")
+		return nil
+	}
 	// ---- Type methods (invoked through the interface) ----
 	tm := func(name string, f func(st *State, rt *RType, a []Value) Value) {
 		H["(symreflect.rtype)."+name] = func(st *State, a []Value) Value {
